@@ -22,6 +22,8 @@ CONSTANTS Types, PIDs, NIDs,   \* finite id spaces
           Lists,               \* candidate node-id lists for RegisterPipeline
           KindOf,              \* NIDs -> {"filter","formatter","sink","ff"}
           CloseFails,          \* subset of NIDs whose Close returns an error
+          PreNodes,            \* node ids already registered (default policy) in the initial state: a prelude that
+                               \* lets a bounded exploration spend its depth on pipelines rather than on RegisterNode
           ThrVals,             \* values offered to the threshold setters (negative ones must be rejected)
           MaxDepth, Dev
 
@@ -37,12 +39,15 @@ NoNode == [reg |-> FALSE, pol |-> "allow", refc |-> 0, ver |-> 0]
 NoPipe == [reg |-> FALSE, ids |-> <<>>, vers |-> <<>>, pol |-> "allow"]
 Eff(pol) == IF pol = "default" THEN "allow" ELSE pol
 
-Init == /\ nodes = [n \in NIDs |-> NoNode]
+PreSeq == LET RECURSIVE S(_)
+              S(T) == IF T = {} THEN <<>> ELSE LET n == CHOOSE x \in T : TRUE IN <<[a |-> "RegisterNode", n |-> n, pol |-> "default"]>> \o S(T \ {n})
+          IN S(PreNodes)
+Init == /\ nodes = [n \in NIDs |-> IF n \in PreNodes THEN [reg |-> TRUE, pol |-> "allow", refc |-> 0, ver |-> 1] ELSE NoNode]
         /\ pipes = [tp \in TP |-> NoPipe]
         /\ graphs = {}
         /\ thr = [t \in Types |-> [all |-> 0, sinks |-> 0]]
         /\ closed = {} /\ dbl = FALSE
-        /\ depth = 0 /\ last = [a |-> "init", r |-> "ok"] /\ path = <<>>
+        /\ depth = 0 /\ last = [a |-> "init", r |-> "ok"] /\ path = PreSeq
 
 (* The statement's well-formedness rule restricted to linear pipelines. *)
 WellFormed(ids) == /\ Len(ids) >= 2
